@@ -281,7 +281,19 @@ class Ctx:
     def write_field(self, ref, field, v):
         ty = self.engine.field_type(field)
         if isinstance(v, VOpaque) and not isinstance(ty, type(Any)) and getattr(v, 'note', '') != 'other':
-            v = self.force(VAL.unbox(v.t), 'unbox')
+            # A-types: a value of statically unknown type stored into a typed attribute has that type
+            fits = []
+            for g, a in VAL.unbox(v.t).alts:
+                try:
+                    ty.encode(a, self)
+                    fits.append((g, a))
+                except (VAL.EncodeError, NotImplementedError, AttributeError):
+                    pass
+            if not fits:
+                raise Unsupported('opaque value does not fit the declared type of field %r' % field)
+            self.engine.assumed.add('A-types: values of statically unknown type stored in attribute %r have its declared type' % field)
+            self.assume(z3.Or(*[g for g, a in fits]))
+            v = self.force(VUnion(fits), 'unbox')
         try:
             t = ty.encode(v, self)
         except VAL.EncodeError as e:
